@@ -295,3 +295,69 @@ theorem bounded_of_contents (t : Node) (hw : WF t)
     · exact (h [] w (by simp [lookup, hw'])).2
 
 end NeoModel.Mpt
+
+namespace NeoModel.Mpt
+
+/-- the nodes of a proof are nodes of the trie. -/
+theorem getProof_subset (H : Bytes → Bytes) (t : Node) : ∀ (p : Path) (ps : List Bytes),
+    getProof H t p = some ps → ∀ e ∈ ps, e ∈ nodeEncs H t := by
+  induction t with
+  | empty => intro p ps h; simp [getProof] at h
+  | leaf w =>
+    intro p ps h
+    cases p with
+    | nil => simp only [getProof, Option.some.injEq] at h; subst h; simp [nodeEncs]
+    | cons a p => simp [getProof] at h
+  | ext k n ih =>
+    intro p ps h e he
+    simp only [getProof] at h
+    cases hs : stripPre k p with
+    | none => simp [hs] at h
+    | some r =>
+      simp only [hs] at h
+      cases hg : getProof H n r with
+      | none => simp [hg] at h
+      | some ps' =>
+        simp only [hg, Option.map_some, Option.some.injEq] at h
+        subst h
+        simp only [List.mem_cons] at he
+        cases he with
+        | inl h1 => subst h1; simp [nodeEncs]
+        | inr h1 => simp [nodeEncs, ih r ps' hg e h1]
+  | branch cs v ih =>
+    intro p ps h e he
+    cases p with
+    | nil =>
+      cases v with
+      | none => simp [getProof] at h
+      | some w =>
+        simp only [getProof, Option.some.injEq] at h
+        subst h
+        simp only [List.mem_cons, List.not_mem_nil, or_false] at he
+        cases he with
+        | inl h1 => subst h1; simp [nodeEncs]
+        | inr h1 => subst h1; exact mem_nodeEncs_slot H cs w
+    | cons i r =>
+      simp only [getProof] at h
+      cases hg : getProof H (cs i) r with
+      | none => simp [hg] at h
+      | some ps' =>
+        simp only [hg, Option.map_some, Option.some.injEq] at h
+        subst h
+        simp only [List.mem_cons] at he
+        cases he with
+        | inl h1 => subst h1; simp [nodeEncs]
+        | inr h1 => exact mem_nodeEncs_kid H cs v i (ih i r ps' hg e h1)
+
+theorem collFree_subset {H : Bytes → Bytes} {S S' : List Bytes} (h : CollFree H S) (hs : ∀ e ∈ S', e ∈ S) :
+    CollFree H S' := fun a ha b hb => h a (hs a ha) b (hs b hb)
+
+instance (H : Bytes → Bytes) (S : List Bytes) : Decidable (CollFree H S) := by
+  unfold CollFree; exact inferInstance
+
+/-- toy hash for non-vacuity examples: the first 31 bytes (zero padded) and the length. -/
+def toyH (b : Bytes) : Bytes := (b ++ List.replicate 32 0).take 31 ++ [UInt8.ofNat b.length]
+
+theorem toyH_len (b : Bytes) : (toyH b).length = 32 := by simp [toyH]
+
+end NeoModel.Mpt
